@@ -112,6 +112,10 @@ fn main() {
             std::process::exit(coord::check(coord::CheckArgs { prop, tier, seed, workers, runs, budget_s: budget, family }));
         }
         Some("replay") => std::process::exit(coord::replay(&args[2])),
+        Some("selftest-determinism") => {
+            let runs = args.get(2).and_then(|s| s.parse().ok()).unwrap_or(6000);
+            std::process::exit(coord::selftest_determinism(runs));
+        }
         _ => {
             eprintln!("usage: simcheck one <family> <seed> | batch <family> <from> <to>");
             std::process::exit(2);
